@@ -86,6 +86,9 @@ def cases(tier, rng):
             for deco in ("require", "ensure", "snapshot", "snapshotOverOld", "invariant", "requireOnChecker", "ensureOnChecker"):
                 for arg in ("dflt", "explicitTrue", "explicitFalse", "slow"):
                     yield "table", {"dom": "config", "mode": m, "env": e, "arg": arg, "deco": deco}
+            for deco in ("requirePositional", "ensurePositional", "snapshotPositional"):
+                for arg in ("explicitTrue", "explicitFalse", "slow"):
+                    yield "table-enabled-given-positionally", {"dom": "config", "mode": m, "env": e, "arg": arg, "deco": deco}
             for deco in ("requireOnStaticObj", "ensureOnStaticObj", "requireOnClassmObj", "ensureOnClassmObj"):
                 for arg in ("dflt", "explicitTrue", "explicitFalse", "slow"):
                     c = {"dom": "config", "mode": m, "env": e, "arg": arg, "deco": deco}
@@ -109,6 +112,8 @@ def driver_inputs(case):
             return [dict(case, deco="require" if case["deco"].startswith("require") else "ensure")]
         if case["deco"] == "snapshotOverOld":
             return [dict(case, deco="snapshot")]
+        if case["deco"].endswith("Positional"):
+            return [dict(case, deco=case["deco"][:-len("Positional")])]
         return [case]
     return [case["case"]]
 
